@@ -1230,6 +1230,11 @@ class tensor:
         array([[ 0.4045...,  0.9145...],
                [ 0.9145..., -0.4045...]])
         """
+        if not (0 <= n < self.ndims) or not (1 <= r <= self.shape[n]):
+            assert False, (
+                "Mode n must be a mode of the tensor and r between 1 and the "
+                "size of that mode"
+            )
         Xn = self.to_tenmat(rdims=np.array([n])).double()
         y = Xn @ Xn.T
 
